@@ -300,7 +300,7 @@ class SelectorPattern:
         self.name = name
         self.re_pattern = re.compile(pattern, re.I | re.X | re.U)
 
-    def get_name(self) -> str:
+    def get_name(self, m: Match[str] | None = None) -> str:
         """Get name."""
 
         return self.name
@@ -324,13 +324,18 @@ class SpecialPseudoPattern(SelectorPattern):
             for pseudo in p[1]:
                 self.patterns[pseudo] = pattern
 
-        self.matched_name = None  # type: SelectorPattern | None
         self.re_pseudo_name = re.compile(PAT_PSEUDO_CLASS_SPECIAL, re.I | re.X | re.U)
 
-    def get_name(self) -> str:
-        """Get name."""
+    def get_name(self, m: Match[str] | None = None) -> str:
+        """
+        Get name.
 
-        return '' if self.matched_name is None else self.matched_name.get_name()
+        The name is derived from the match itself: these objects are shared by every parser (and thread),
+        so nothing about an individual match may be stored on them.
+        """
+
+        pattern = self.patterns.get(util.lower(css_unescape(m.group('name')))) if m is not None else None
+        return '' if pattern is None else pattern.get_name()
 
     def match(self, selector: str, index: int, flags: int) -> Match[str] | None:
         """Match the selector."""
@@ -342,8 +347,6 @@ class SpecialPseudoPattern(SelectorPattern):
             pattern = self.patterns.get(name)
             if pattern:
                 pseudo = pattern.match(selector, index, flags)
-                if pseudo:
-                    self.matched_name = pattern
 
         return pseudo
 
@@ -1109,7 +1112,7 @@ class CSSParser:
             for v in self.css_tokens:
                 m = v.match(pattern, index, self.flags)
                 if m:
-                    name = v.get_name()
+                    name = v.get_name(m)
                     if self.debug:  # pragma: no cover
                         print(f"TOKEN: '{name}' --> {m.group(0)!r} at position {m.start(0)}")
                     index = m.end(0)
